@@ -83,6 +83,8 @@ def verify_one(args):
         except (Untranslatable, ContractError, MemoryError, TimeoutError) as e:
             signal.alarm(0)
             out["undecided_reason"] = f"{type(e).__name__}: {e}"
+            if os.environ.get("PYVC_TRACEBACK"):
+                out["undecided_reason"] += "\n" + traceback.format_exc()[-2500:]
             out["wall_s"] = round(time.time() - t0, 3)
             return out
         signal.alarm(0)
